@@ -518,7 +518,34 @@ func c37Gen(r *vh.Rand, tier string, n int) []c37In {
 				path += "/"
 			}
 			var vs []string
-			for c := 0; c < 6; c++ {
+			segs := strings.Split(strings.Trim(path, "/"), "/")
+			switch r.Intn(4) {
+			case 0: // variable-width components at the same position matching different lengths: /a/b/*<suffix of the last segment>
+				last := segs[len(segs)-1]
+				head := "/" + strings.Join(segs[:len(segs)-1], "/")
+				if len(segs) > 1 {
+					head += "/"
+				}
+				for _, c := range r.Perm(len(last) + 1) {
+					vs = append(vs, head+"*"+last[c:])
+				}
+				if len(last) > 1 {
+					vs = append(vs, head+last[:1]+"*"+last[len(last)-1:], head+last[:1]+"*")
+				}
+			case 1: // doublestars matching different numbers of segments: /**/<tail of the path>
+				for _, c := range r.Perm(len(segs)) {
+					vs = append(vs, "/**/"+strings.Join(segs[c:], "/"))
+				}
+				vs = append(vs, "/**", "/"+segs[0]+"/**")
+			default:
+				for c := 0; c < 6; c++ {
+					vs = append(vs, c37Generalise(r, path))
+				}
+			}
+			if len(vs) > 6 {
+				vs = vs[:6]
+			}
+			for c := len(vs); c < 4; c++ {
 				vs = append(vs, c37Generalise(r, path))
 			}
 			ins = append(ins, c37In{Kind: "prec", Variants: vs, Path: path})
